@@ -1,0 +1,48 @@
+//go:build verif
+
+package compiler
+
+import (
+	"fmt"
+
+	"github.com/inspirer/textmapper/grammar"
+	"github.com/inspirer/textmapper/status"
+	"github.com/inspirer/textmapper/syntax"
+)
+
+// VerifModelGrammar runs the part of compileParser that follows template instantiation
+// (syntax.Expand, syntax.ResolveSets, addSyntheticInputs, addNonterms, generateTables) on a
+// hand-built syntax.Model, so that models which cannot be written as .tm text (right-recursive
+// lists) can be observed through grammar.Parser.Rules. LALR errors are returned but the rules are
+// kept. Adds nothing to the non-verif build.
+func VerifModelGrammar(m *syntax.Model, origin status.SourceNode) (out *grammar.Grammar, err error) {
+	var s status.Status
+	r := newResolver(&s)
+	for i, t := range m.Terminals {
+		r.Syms = append(r.Syms, grammar.Symbol{Index: i, ID: t.Name, Name: t.Name, Origin: origin})
+		r.syms[t.Name] = i
+		r.ids[t.Name] = t.Name
+	}
+	r.NumTokens = len(m.Terminals)
+	out = &grammar.Grammar{
+		Parser:    &grammar.Parser{},
+		Options:   &grammar.Options{},
+		NumTokens: r.NumTokens,
+	}
+	defer func() {
+		if p := recover(); p != nil {
+			err = fmt.Errorf("panic: %v", p)
+		}
+	}()
+	if err := syntax.Expand(m, syntax.DefaultExpandOptions()); err != nil {
+		return out, err
+	}
+	if err := syntax.ResolveSets(m); err != nil {
+		return out, err
+	}
+	addSyntheticInputs(m)
+	r.addNonterms(m)
+	out.Syms = r.Syms
+	err = generateTables(m, out, genOptions{}, origin)
+	return out, err
+}
